@@ -129,11 +129,11 @@ class Select(Factory, Container):
 
     @inheritdoc(Container)
     def __iadd__(self, other):
-        if isinstance(other, Select):
-            self.entries += other.entries
-            self.cut += other.cut
-            return self
-        raise ContainerException(f"cannot add {self.name} and {other.name}")
+        # merge with + first: it raises, leaving both operands untouched, if anything is incompatible
+        both = self + other
+        self.entries = both.entries
+        self.cut = both.cut
+        return self
 
     @inheritdoc(Container)
     def __mul__(self, factor):
